@@ -9,8 +9,8 @@ func init() {
 			"The CLI journal command is checked as a call chain (BuildJournal fed from NewDirectoryGtfsrtSource). Together with C05 for ParseRealtime this is the whole mechanism. " +
 			"Not decided: the behaviour of os.ReadDir/os.ReadFile/sort.Strings themselves; journal equality (C14/C15).",
 		Rules: []Rule{
-			{Name: "DIR", Doc: "directory source: list all, sort, consume one per iteration from the front, skip on error", MinInstances: 4, Run: runDirSource},
-			{Name: "UNMARSHAL", Doc: "strict decoding: what does not parse is an error (and is then skipped)", MinInstances: 2, Run: runUnmarshalDiscipline},
+			{Name: "DIR", Doc: "directory source: list all, sort, consume one per iteration from the front, skip on error", MinInstances: 2, Run: runDirSource},
+			{Name: "UNMARSHAL", Doc: "strict decoding: what does not parse is an error (and is then skipped)", MinInstances: 1, Run: runUnmarshalDiscipline},
 		},
 	})
 }
